@@ -7,6 +7,7 @@ import (
 	"time"
 
 	"github.com/pingcap/kvproto/pkg/kvrpcpb"
+	"github.com/tikv/client-go/v2/tikvrpc"
 	"github.com/tikv/client-go/v2/verifsim/simkit"
 )
 
@@ -535,6 +536,10 @@ func (c *checker) checkC14(plan *GCPlan, rep *GCReport) {
 func (c *checker) checkLockExclusion() {
 	for _, r := range c.trace {
 		if r.Fate != simkit.Deliver && r.Fate != simkit.TopoSplit && r.Fate != simkit.TopoSplitAfter && r.Fate != simkit.TopoMergeAfter && r.Fate != simkit.TopoLeader {
+			// a lost clean-up message of a failed lock statement only leaves locks behind, it takes none away
+			if r.Type == tikvrpc.CmdPessimisticRollback && (r.Fate == simkit.DropReq || r.Fate == simkit.DropReqSlow) {
+				continue
+			}
 			return
 		}
 	}
